@@ -34,10 +34,10 @@ long Own::live = 0;
 
 template<class T> struct SmallArr { T a[8]; uint32 n; SmallArr() : n(0) {} void push_back(const T & x) { a[n++] = x; } bool empty() const { return n == 0; } T & operator[](uint32 i) { return a[i]; } T * begin() { return a; } T * end() { return a + n; } };
 template<class T> struct Conv;
-template<> struct Conv<int32> { static int32 Make(uint32 range) { return (int32)R(range) + 1; } static int32 Def() { return 0; } static std::string Show(const int32 & v) { return vh::fmt("%d", v); } static const char * Name() { return "int32"; } };
-template<> struct Conv<bool> { static bool Make(uint32) { return R(2) != 0; } static bool Def() { return false; } static std::string Show(const bool & v) { return v ? "true" : "false"; } static const char * Name() { return "bool"; } };   // trivial type whose invalid (never-written) values UBSan can see: F55
-template<> struct Conv<String> { static String Make(uint32 range) { char b[64]; snprintf(b, sizeof(b), "s%02u%s", R(range), R(3) == 0 ? "_a_long_string_beyond_sso" : ""); return String(b); } static String Def() { return String(); } static std::string Show(const String & v) { return std::string("'") + v() + "'"; } static const char * Name() { return "String"; } };
-template<> struct Conv<Own> { static Own Make(uint32 range) { return Own((int)R(range)); } static Own Def() { return Own(); } static std::string Show(const Own & v) { return vh::fmt("o%d", v.val()); } static const char * Name() { return "Own"; } };
+template<> struct Conv<int32> { static int32 Make(uint32 range) { return (int32)R(range) + 1; } static int32 Def() { return 0; } static std::string Show(const int32 & v) { return vh::fmt("%d", v); } static const char * Name() { return "int32"; } static long Key(const int32 & v) { return v / 4; } };
+template<> struct Conv<bool> { static bool Make(uint32) { return R(2) != 0; } static bool Def() { return false; } static std::string Show(const bool & v) { return v ? "true" : "false"; } static const char * Name() { return "bool"; } static long Key(const bool &) { return 0; } };   // trivial type whose invalid (never-written) values UBSan can see: F55
+template<> struct Conv<String> { static String Make(uint32 range) { char b[64]; snprintf(b, sizeof(b), "s%02u%s", R(range), R(3) == 0 ? "_a_long_string_beyond_sso" : ""); return String(b); } static String Def() { return String(); } static std::string Show(const String & v) { return std::string("'") + v() + "'"; } static const char * Name() { return "String"; } static long Key(const String & v) { return v.Length() > 2 ? (long)(unsigned char)v()[2] : -1; } };
+template<> struct Conv<Own> { static Own Make(uint32 range) { return Own((int)R(range)); } static Own Def() { return Own(); } static std::string Show(const Own & v) { return vh::fmt("o%d", v.val()); } static const char * Name() { return "Own"; } static long Key(const Own & v) { return v.val() / 4; } };
 
 static std::vector<std::string> trace;
 static bool caseBad;
@@ -86,6 +86,10 @@ template<class T> static void MakeOther(Queue<T> & o2, std::deque<T> & m2, uint3
    for (int i = 0; i < c; i++) { T x = Conv<T>::Make(range); if (head) { (void)o2.AddHead(x); m2.push_front(x); } else { (void)o2.AddTail(x); m2.push_back(x); } }
 }
 
+// a comparison functor that treats distinguishable items as equal (coarse key): with it, Sort()'s documented stability is observable
+static long gCoarseCalls = 0;
+template<class T> struct CoarseCmp { int Compare(const T & a, const T & b, void * cookie) const { if (cookie == (void *)&gCoarseCalls) gCoarseCalls++; const long ka = Conv<T>::Key(a), kb = Conv<T>::Key(b); return (ka < kb) ? -1 : ((ka > kb) ? 1 : 0); } };
+template<class T> struct CoarseLess { bool operator()(const T & a, const T & b) const { return Conv<T>::Key(a) < Conv<T>::Key(b); } };
 // walks an iterator (by value) and compares the visited indices and values with the expected index list; the iterator must end exactly there
 template<class It, class T> static bool WalkOK(It it, const std::vector<uint32> & want, const std::deque<T> & m, int32 stride)
 {
@@ -140,7 +144,11 @@ template<class T> static void RunCase(long k, uint64_t cs)
       case 34: { uint32 c = R(5); OP("RemoveTailMulti %u", c); uint32 got = q->RemoveTailMulti(c); uint32 e = std::min(c, sz); if (got != e) Fail("returned count"); m.erase(m.end() - e, m.end()); } break;
       case 35: if (sz) { OP("Swap %u %u", k1 % sz, k2 % sz); q->Swap(k1 % sz, k2 % sz); std::swap(m[k1 % sz], m[k2 % sz]); } break;
       case 36: { uint32 a = std::min(k1, k2), b = std::max(k1, k2) + R(2) * R(3); OP("ReverseItemOrdering %u %u", a, b); q->ReverseItemOrdering(a, b); if (b > sz) b = sz; if (b > a) std::reverse(m.begin() + a, m.begin() + b); } break;
-      case 37: { uint32 a = std::min(k1, k2), b = std::max(k1, k2) + R(2) * R(3); OP("Sort %u %u", a, b); q->Sort(a, b); if (b > sz) b = sz; if (b > a) std::stable_sort(m.begin() + a, m.begin() + b); } break;
+      case 37: { uint32 a = std::min(k1, k2), b = std::max(k1, k2) + R(2) * R(3);
+                 if (R(2)) { OP("Sort %u %u", a, b); q->Sort(a, b); if (b > sz) b = sz; if (b > a) std::stable_sort(m.begin() + a, m.begin() + b); }
+                 else { // documented as a STABLE sort: items the functor calls equal keep their relative order
+                    if (R(3) == 0) { a = 0; b = MUSCLE_NO_LIMIT; } OP("SortCoarse %u %u", a, b); const long c0 = gCoarseCalls; q->Sort(CoarseCmp<T>(), a, b, (void *)&gCoarseCalls); if (b > sz) b = sz;
+                    if (b > a) { std::stable_sort(m.begin() + a, m.begin() + b, CoarseLess<T>()); if (b - a >= 12) vh::stat("coarse_sorts_of_12_or_more_items"); if (b - a >= 2 && gCoarseCalls == c0) Fail("the cookie was not passed to the comparison functor"); } } } break;
       case 38: { uint32 want = R(40); OP("EnsureSizeSet %u (from %u)", want, sz); r = q->EnsureSize(want, true); if (r.IsOK()) { while (m.size() < want) m.push_back(Conv<T>::Def()); while (m.size() > want) m.pop_back(); } else Fail("failed"); } break;
       case 39: { uint32 want = R(100), ex = R(10); bool sh = R(2); OP("EnsureSize %u extra %u shrink %d (items %u)", want, ex, (int)sh, sz); if (q->EnsureSize(want, false, ex, sh).IsError()) Fail("failed"); if (q->GetNumAllocatedItemSlots() < want) Fail("fewer slots than requested"); if (sh) shrunk = true; } break;
       case 40: { uint32 want = R(60), ex = R(6); OP("EnsureSizeSetShrink %u extra %u (from %u)", want, ex, sz); r = q->EnsureSize(want, true, ex, true); if (r.IsOK()) { while (m.size() < want) m.push_back(Conv<T>::Def()); while (m.size() > want) m.pop_back(); shrunk = true; } else Fail("failed"); } break;
